@@ -40,6 +40,8 @@ def run(F, rep, tier):
     guard_location(F, rep)
     name_span(F, rep)
     parse_error_dropped(F, rep)
+    import c20
+    c20.prelude_yields(F, rep)
 
 
 def _norm(e):
